@@ -87,7 +87,7 @@ pub open spec fn swap_post(w: Whirlpool, amount: u64, limit: u128, is_in: bool, 
     &&& tick_price_consistent(u.next_tick_index as int, u.next_sqrt_price as int)
 }
 
-//@ fn manager/swap_manager.rs swap -> r nodec
+//@ fn manager/swap_manager.rs swap -> r nodec canary
     requires
         *adaptive_fee_info is None,
         whirlpool.fee_rate <= 60_000, whirlpool.protocol_fee_rate <= 2_500, whirlpool.tick_spacing > 0,
@@ -151,6 +151,10 @@ pub open spec fn swap_post(w: Whirlpool, amount: u64, limit: u128, is_in: bool, 
 //@ inject before /let \(next_protocol_fee, next_fee_growth_global_input\) = calculate_fees\(/
             // C06: the fee of a step accrues to the liquidity that was in range during that step (ghost state: liquidity and price at the step's start)
             proof { assert(curr_liquidity == g_step_liquidity && curr_sqrt_price == g_step_price); } //# C06 C01
+            let ghost g_proto_before = curr_protocol_fee; let ghost g_growth_before = curr_fee_growth_global_input;
+//@ inject before /^\s*curr_protocol_fee = next_protocol_fee;/
+            // C06 / C01: the split that is booked is the one of THIS step's fee, with the pool's protocol rate, against the liquidity in range during the step and the running accumulators
+            proof { assert(fees_booked(swap_computation.fee_amount, protocol_fee_rate, g_step_liquidity, g_proto_before, g_growth_before, next_protocol_fee, next_fee_growth_global_input)); } //# C06 C01
 //@ inject after /curr_fee_growth_global_input = next_fee_growth_global_input;/
             let ghost g_fee_split_done = true;
 //@ inject before /let \(update, next_liquidity\) = calculate_update\(/
